@@ -307,21 +307,21 @@ pub fn number_to_string(
 
     let int_val = n as i64;
     let result = match radix {
-        2 => format!("{:b}", int_val.abs()),
-        8 => format!("{:o}", int_val.abs()),
-        16 => format!("{:x}", int_val.abs()),
+        2 => format!("{:b}", int_val.unsigned_abs()),
+        8 => format!("{:o}", int_val.unsigned_abs()),
+        16 => format!("{:x}", int_val.unsigned_abs()),
         _ => {
             // Generic radix conversion
             const DIGITS: &[u8] = b"0123456789abcdefghijklmnopqrstuvwxyz";
-            let mut num = int_val.abs();
+            let mut num = int_val.unsigned_abs();
             let mut result = String::new();
             while num > 0 {
-                let digit_idx = (num % radix as i64) as usize;
+                let digit_idx = (num % radix as u64) as usize;
                 // radix is validated to be 2-36, so digit_idx is always 0-35
                 if let Some(&ch) = DIGITS.get(digit_idx) {
                     result.insert(0, ch as char);
                 }
-                num /= radix as i64;
+                num /= radix as u64;
             }
             if result.is_empty() {
                 result = "0".to_string();
